@@ -31,12 +31,13 @@ Observe ==
 WellFormed(t) ==
   /\ Len(Traces[t].calls) >= 2
   /\ Traces[t].calls[1].op = "create"
+  /\ Traces[t].calls[1].trunc                 \* the model's Create starts from an empty file: the writer must truncate
   /\ Traces[t].calls[Len(Traces[t].calls)].op = "close"
 
 Why(t) == (IF TLCGet(t) = 1 THEN <<"a-crash-point-leaves-a-loadable-incomplete-file">> ELSE <<>>)
        \o (IF TLCGet(N + t) = 0 THEN <<"trace-not-replayable">> ELSE <<>>)
        \o (IF TLCGet(2 * N + t) = 1 THEN <<"completed-write-not-durable-or-incomplete">> ELSE <<>>)
-       \o (IF ~WellFormed(t) THEN <<"trace-malformed">> ELSE <<>>)
+       \o (IF ~WellFormed(t) THEN <<"trace-malformed-or-file-not-truncated-at-open">> ELSE <<>>)
 
 Verdict == LET all == [t \in 1..N |-> [i |-> t, why |-> Why(t)]]
            IN PrintT(ToJson([n |-> N, bad |-> SelectSeq(all, LAMBDA x : x.why # <<>>)]))
